@@ -66,6 +66,30 @@ pub fn generator_stream_cfg(r: &mut Rng, cfg: &GenCfg) -> Option<Stream> {
     }
 }
 
+/// scale: plaintext of several MiB (which = 2), tens of MiB (1) or beyond 128 MiB, the only size constant in
+/// the crate (0), in a zlib stream of many blocks; sparse noise in long runs keeps the stream itself small
+pub fn scale_stream(r: &mut Rng, which: u64) -> Option<Stream> {
+    let n = match which {
+        0 => (128 << 20) + (9 << 20) + r.usize_below(3 << 20),
+        1 => (30 << 20) + r.usize_below(8 << 20),
+        _ => (5 << 20) + r.usize_below(8 << 20),
+    };
+    let mut p = vec![r.byte(); n];
+    let mut at = r.usize_below(3000);
+    while at < n {
+        p[at] = r.byte();
+        at += 1 + r.usize_below(3000);
+    }
+    let level = *r.pick(&[1, 1, 6]);
+    let d = comp::zlib_raw(&p, level, 0, 15, 8, &[])?;
+    Some(Stream {
+        source: 0,
+        recipe: format!("zlib level {} on {} bytes of sparse noise in a run ({} MiB)", level, n, n >> 20),
+        bytes: d,
+        plain: p,
+    })
+}
+
 /// any of the five sources; `gen_share` in tenths
 pub fn any_stream(r: &mut Rng, max_plain: usize, gen_share: u64) -> Option<Stream> {
     if r.chance(gen_share, 10) {
